@@ -580,6 +580,119 @@ pub fn for_steps() -> Vec<Snip06> {
 
 
 // ---------------------------------------------------------------------------
+// Unary and logical operators on variables of every type stored into targets of every type; quotients that are
+// exactly a power of two just beyond a whole-number type; FOR headers whose literal start / limit / step does not
+// fit the counter.
+// ---------------------------------------------------------------------------
+
+pub fn unary_and_powers() -> Vec<Snip06> {
+    let mut out = vec![];
+    let push = |out: &mut Vec<Snip06>, stmts: Vec<Stmt>, label: String, boundary: bool| {
+        out.push(Snip06 { snip: Snip { stmts, label, ill_typed: false }, stdin: String::new(), boundary });
+    };
+    // (a) NOT / unary minus / AND / OR of a variable of every numeric type, stored into every kind of target
+    let values: [(&str, Ty); 12] = [
+        ("0", Ty::Int), ("5", Ty::Int), ("-7", Ty::Int), ("32767", Ty::Int), ("70000", Ty::Long), ("-70000", Ty::Long), ("2.25", Ty::Single), ("-2.75", Ty::Single), ("100.25", Ty::Single), ("2.25#", Ty::Double),
+        ("-1000.75#", Ty::Double), ("70000.25#", Ty::Double),
+    ];
+    for (text, _) in values {
+        for src in Ty::NUMERIC {
+            // the value must be denotable by the source type without conversion issues (R1: no ties; whole values for % and &)
+            let whole = !text.contains('.');
+            if matches!(src, Ty::Int | Ty::Long) && !whole {
+                continue;
+            }
+            if src == Ty::Int && text.trim_start_matches('-').parse::<i64>().map(|v| v > 32767).unwrap_or(false) {
+                continue;
+            }
+            let lit = || -> Expr {
+                if let Some(rest) = text.strip_prefix('-') { Expr::Neg(Box::new(Expr::Num(rest.to_string()))) } else { Expr::Num(text.to_string()) }
+            };
+            for opk in 0..4 {
+                for target in Ty::NUMERIC {
+                    for route in 0..3 {
+                        let mut b = B::new();
+                        let x = tv("X", src);
+                        let e = match opk {
+                            0 => Expr::Not(Box::new(x.clone())),
+                            1 => Expr::Neg(Box::new(x.clone())),
+                            2 => bin(BinOp::And, x.clone(), num(6)),
+                            _ => bin(BinOp::Or, x.clone(), num(1)),
+                        };
+                        let mut stmts = vec![b.assign(x.clone(), lit())];
+                        let dst = match route {
+                            0 => tv("T", target),
+                            1 => Expr::Index(format!("AR{}", target.suffix()), vec![num(1)]),
+                            _ => field_of(target),
+                        };
+                        stmts.push(b.assign(dst.clone(), e));
+                        // the stored value is used in further arithmetic of the target's type
+                        stmts.push(b.print(vec![dst.clone(), bin(BinOp::Mul, dst, num(3))]));
+                        push(&mut out, stmts, format!("{} of a {:?} variable holding {} -> {:?} route{}", ["NOT", "unary minus", "AND 6", "OR 1"][opk], src, text, target, route), false);
+                    }
+                }
+            }
+        }
+    }
+    // (b) quotients that are exactly 2^15, 2^31 (and their negatives, which fit), computed in SINGLE and in DOUBLE
+    for (sfx, ty) in [("", Ty::Single), ("#", Ty::Double)] {
+        for (num_text, den_text, what) in [
+            ("65536.0", "2.0", "2^15"), ("-65536.0", "2.0", "-2^15"), ("4294967296.0", "2.0", "2^31"), ("-4294967296.0", "2.0", "-2^31"), ("16384.0", ".5", "2^15"), ("1073741824.0", ".5", "2^31"),
+            ("-1073741824.0", ".5", "-2^31"), ("131072.0", "4.0", "2^15"), ("65534.0", "2.0", "2^15 - 1"), ("4294967294.0", "2.0", "2^31 - 1 in DOUBLE, 2^31 in SINGLE"),
+        ] {
+            if ty == Ty::Single && num_text == "4294967294.0" {
+                continue; // not exactly a SINGLE
+            }
+            for target in [Ty::Int, Ty::Long] {
+                for form in 0..3 {
+                    let mut b = B::new();
+                    let n = Expr::Num(format!("{}{}", num_text.trim_start_matches('-'), sfx));
+                    let n = if num_text.starts_with('-') { Expr::Neg(Box::new(n)) } else { n };
+                    let d = Expr::Num(format!("{}{}", den_text, sfx));
+                    let mut stmts = vec![];
+                    let e = match form {
+                        0 => bin(BinOp::Div, n, d),
+                        1 => {
+                            stmts.push(b.assign(tv("X", ty), n));
+                            bin(BinOp::Div, tv("X", ty), d)
+                        }
+                        _ => {
+                            stmts.push(b.assign(tv("X", ty), n));
+                            stmts.push(b.assign(tv("Y", ty), d));
+                            Expr::Paren(Box::new(bin(BinOp::Div, tv("X", ty), tv("Y", ty))))
+                        }
+                    };
+                    let dst = if form == 1 { Expr::Index(format!("AR{}", target.suffix()), vec![num(2)]) } else { tv("T", target) };
+                    stmts.push(b.assign(dst.clone(), e));
+                    stmts.push(b.print(vec![dst]));
+                    push(&mut out, stmts, format!("quotient {} ({}{} / {}{}) -> {:?} form{}", what, num_text, sfx, den_text, sfx, target, form), true);
+                }
+            }
+        }
+    }
+    // (c) FOR headers whose literal start, limit or step does not fit the counter: Overflow before the body runs
+    for (counter, big, neg_big) in [(Ty::Int, "40000", "32769"), (Ty::Int, "32768", "70000"), (Ty::Long, "2147483648", "3000000000"), (Ty::Int, "40000.5", "32768.25")] {
+        for place in 0..3 {
+            for negative in [false, true] {
+                let mut b = B::new();
+                let k = tv("K", counter);
+                let lit = |t: &str, neg: bool| -> Expr { if neg { Expr::Neg(Box::new(Expr::Num(t.to_string()))) } else { Expr::Num(t.to_string()) } };
+                let v = lit(if negative { neg_big } else { big }, negative);
+                let (from, to, step) = match place {
+                    0 => (num(1), num(3), Some(v)),
+                    1 => (num(1), v, Some(num(if negative { -1 } else { 1 }))),
+                    _ => (v, num(3), None),
+                };
+                let body = vec![b.print(vec![st("body"), k.clone()])];
+                let stmts = vec![b.print(vec![st("before")]), b.s(K::For { var: k.clone(), from, to, step, body, next_var: false }), b.print(vec![st("after"), k])];
+                push(&mut out, stmts, format!("FOR with a {:?} counter whose {} is {}{}", counter, ["STEP", "limit", "start"][place], if negative { "-" } else { "" }, if negative { neg_big } else { big }), true);
+            }
+        }
+    }
+    out
+}
+
+// ---------------------------------------------------------------------------
 // Conversions of two values that are closer together than the tolerance of the interpreter's comparisons
 // (0.00001) but lie on different sides of a rounding tie or of a range limit, one right after the other.
 // ---------------------------------------------------------------------------
